@@ -27,6 +27,19 @@ CHECKS = {
              " <=3 objects per term, <=3 terms per sum, shapes of the grammar; "
              "polynomial denominators excluded (documented as unsupported by "
              "simplify)."),
+    "C20": dict(
+        text="Every product of 1..3 unitary factors U (NonSymmetricTensor and "
+             "(1,1) AntiSymmetricTensor, exponents <=2) over every index "
+             "pattern of a 4-index pool, times 0..2 remainder tensors, for the "
+             "Einstein and every explicit target set and evaluate_deltas "
+             "on/off, is passed to the real simplify_unitary(); the value is "
+             "compared exactly with U the Cayley transform of a formal skew "
+             "matrix (N=2,3, both components of O(N)); untouched-ness is "
+             "checked with an independent predicate.",
+        design="4 C20",
+        note="Trusted: reference interpreter; orthogonal matrices of size 2 "
+             "and 3 only (rational parametrisation dense in O(N)); <=3 U "
+             "factors, <=3 remainder slots."),
 }
 
 NOT_YET = {}
